@@ -30,7 +30,7 @@ ASSUMPTIONS = ["float-additive hidden games (surplus below 1e-6*scale, the C15 c
                "independent-normalisation comparison only", "after a torn call the environment is only required to "
                "satisfy every clause again after reset()",
                "reward <= rounding tolerance is demanded only for class-matched hidden games"]
-PROBES = ["done_by_budget", "done_by_degenerate_before_exhaustion", "done_by_exhaustion", "unstep_after_2_steps",
+PROBES = ["env_pickled_mid_session", "done_by_budget", "done_by_degenerate_before_exhaustion", "done_by_exhaustion", "unstep_after_2_steps",
           "reset_after_torn_call", "solver_probe", "model_instance_env", "independent_normalisation_checked",
           "step_after_done", "unstep_out_of_order"]
 TIERS = {
@@ -129,6 +129,18 @@ def _drive(sim: Sim, env, source, n, comp_name, gap, budget, matched, exact, SOL
         kinds = [("reset", 2), ("probe", 2), ("torn", 1)]
         if sim.flip(1, 20, "other-use"):
             prelude.warm_process(sim, label="midrun")
+        if sim.flip(1, 14, "process-boundary"):
+            # the environment is shipped to another process (what evaluate() does with a pool): from here on
+            # the session continues on the unpickled copy, whose hidden-game source travelled with it
+            import pickle
+            with sim.guard("C09.pickling_raised"):
+                env = pickle.loads(pickle.dumps(env))
+            if not isinstance(source, Recorder):
+                source = env.generator
+            solvers = {}
+            sim.fault("environment_crossed_a_process_boundary")
+            sim.probe("env_pickled_mid_session")
+            em.check_env(sim, env, n, comp_name, gap, hidden, revealed, steps_taken, budget, matched, exact, P)
         if valid:
             kinds.append(("step", 8))
         if revealed:
